@@ -26,7 +26,19 @@ for f in sorted(glob.glob(os.path.join(ROOT, 'seeded', '*', 'meta.json'))):
         title += ' [re-made on the repaired tree]'
     classes = ', '.join(sorted((own_e.get('violation_classes') or {}).keys())[:3])
     conf = m.get('confirmed') or {}
-    confs = 'demo %s→%s; %s' % (conf.get('demo_without_change_rc', '?'), conf.get('demo_with_change_rc', '?'), (conf.get('test_suite_with_change') or '?').split(',')[0])
+    suite = (conf.get('test_suite_with_change') or '?')
+    import re as _re
+    mm = _re.search(r'(\d+) passed', suite)
+    if conf.get('failures'):
+        if conf.get('rerun_alone'):
+            suite = '%s passed, %d failed under load (passed 3/3 re-run alone)' % (mm.group(1) if mm else '?', len(conf['failures']))
+        elif conf.get('only_known_flake'):
+            suite = '%s passed, the known flaky test_enable_insights hung (§7)' % (mm.group(1) if mm else '?')
+        else:
+            suite = suite.split(',')[0] + ': ' + '; '.join(conf['failures'][:2])
+    else:
+        suite = suite.split(',')[0]
+    confs = 'demo %s→%s; %s' % (conf.get('demo_without_change_rc', '?'), conf.get('demo_with_change_rc', '?'), suite)
     others = [p for p in m.get('detected_by', []) if p != own]
     rows.append('| %s | %s | %s (%s) | %s | %s%s | %s |' % (m['id'], own, title.replace('|', '/'), ', '.join(m.get('files', [])), confs,
                                                        how, (': ' + classes) if classes else '', ' '.join(others) or '—'))
